@@ -13,8 +13,11 @@ class C17Monitor(object):
         temp = target.temp
         if "weights" not in temp:
             return None
-        base = temp["notional_value"] if "notional_value" in temp else target.notional_value
-        cur = {cn: (c.notional_value, getattr(c, "position", None)) for cn, c in target.children.items()}
+        from .. import taps
+
+        src = taps.entry_view(self.sim, target)
+        base = temp["notional_value"] if "notional_value" in temp else src.notional_value
+        cur = {cn: (c.notional_value, getattr(c, "position", None)) for cn, c in src.children.items()}
         return dict(base=base, weights=dict(temp["weights"].items()), cur=cur, ntr=len(self.sim.trade_log))
 
     def post(self, wrap, target, r, ctx):
